@@ -63,7 +63,15 @@ def run(ctx: Ctx) -> None:
     ctx.assumptions += ["theorems assume file name, prefix and message free of ESC and line breaks (`safe`); that messages are is decided by the search"]
     ctx.rule("generated Error objects (0-6 back-ticks, %, \\\\1, quotes, non-ASCII; 4 file shapes) under every format x quiet combination; "
              "CLI runs under every --format/--quiet/--sort combination; string-literal perturbation of test/data; distinct by rendered text")
-    b = coq.compile_props(ctx, {}, ["C13"])
+    gens, order = {}, ["C13"]
+    try:
+        from ..core import REPO
+        from ..translate.report import translate as translate_report
+        gens["GenFormat"] = translate_report(REPO)
+        order += ["GenFormat", "C13Format"]
+    except Exception as e:  # noqa: BLE001
+        ctx.obligation("translate format_errors and the exit status (refurb/main.py)", False, f"{type(e).__name__}: {e}")
+    b = coq.compile_props(ctx, gens, order)
     coq.record_build(ctx, b)
     from refurb import main as rmain
     from refurb.settings import Settings
@@ -121,7 +129,7 @@ def run(ctx: Ctx) -> None:
                 ctx.report("color-changes-text:report", "the coloured report minus its escape sequences is not the plain report", {
                     "messages": [x if isinstance(x, str) else x.msg for x in items], "colour_on": by_combo["text", True, quiet][:600], "colour_off": by_combo["text", False, quiet][:600]})
     # ---- correspondence with the Coq model
-    if b.ok:
+    if b.files.get("C13", {}).get("rc") == 0:
         hdr = ("From Lib Require Import Base Render.\nOpen Scope list_scope.\nSet Printing Width 100000.\n"
                "Definition chk (c : err * string * string * string * string) : bool := let '(e, p, co, gh, rel) := c in\n"
                "  String.eqb (plain e) p && String.eqb (color e) co && String.eqb (github rel e) gh.\n"
@@ -165,7 +173,9 @@ def run(ctx: Ctx) -> None:
                        not mism, "; ".join(mism[:5]))
     cli_matrix(ctx)
     perturb(ctx)
-    ctx.resolve_broken({"color_only_adds_escapes": "color-changes-text", "one_line": "multi-line", "hint_iff": "hint-condition",
+    ctx.resolve_broken({"translate format_errors and the exit status (refurb/main.py)": ("formats-disagree", "hint-condition", "exit-status", "color-changes-text"),
+                        "format_errors_translated_is_the_model": ("formats-disagree", "hint-condition", "color-changes-text"), "github_format_ignores_colour": ("formats-disagree",),
+                        "exit_translated_is_the_model": ("exit-status",), "color_only_adds_escapes": "color-changes-text", "one_line": "multi-line", "hint_iff": "hint-condition",
                         "correspondence: Lib/Render.v plain/color/github/format_errors = the real renderers on every generated error and report": ("formats-disagree", "color-changes-text", "hint-condition", "multi-line", "exit-status")}, b.first_error)
 
 
